@@ -96,6 +96,9 @@ pub struct NodeState {
     pub log: EventLog,
     /// Counters of faults that actually fired.
     pub fired: BTreeMap<&'static str, u64>,
+    /// Blocks the node has lost from its active chain (it came back from an outage behind its former tip) and will
+    /// connect again when it catches up, oldest first.
+    pub lost: Vec<BlockHash>,
 }
 
 #[derive(Clone)]
@@ -193,6 +196,7 @@ impl NodeState {
             branch_nonce: 0,
             log,
             fired: BTreeMap::new(),
+            lost: Vec::new(),
         };
         let gh = gblock.block_hash();
         st.blocks.insert(gh, (gblock, 0));
@@ -216,6 +220,7 @@ impl NodeState {
                 branch_nonce: 0,
                 log: EventLog::new(),
                 fired: BTreeMap::new(),
+            lost: Vec::new(),
             };
             for _ in 0..MAX_INITIAL {
                 tmp.mine(vec![]);
@@ -508,6 +513,39 @@ impl NodeState {
         candidates.extend(old_mempool);
         self.revalidate_mempool(candidates);
         self.fire("F5_reorg");
+    }
+
+    /// The node has lost its last `k` blocks (unclean shutdown, `invalidateblock`): they leave the active chain, their
+    /// transactions go back to the mempool, the blocks themselves stay known (they can still be fetched by hash).
+    pub fn fall_behind(&mut self, k: u32) -> u32 {
+        let k = k.min(self.height().saturating_sub(2));
+        if k == 0 || !self.lost.is_empty() {
+            return 0;
+        }
+        let new_height = self.height() - k;
+        let mut returned: Vec<Transaction> = Vec::new();
+        for h in (new_height + 1)..=self.height() {
+            returned.extend(self.block_at(h).clone().txdata.into_iter().skip(1));
+            self.lost.push(self.active[h as usize]);
+        }
+        self.active.truncate(new_height as usize + 1);
+        self.rebuild();
+        self.revalidate_mempool(returned);
+        self.fire("F9_node_back_behind_its_former_tip");
+        k
+    }
+
+    /// The node connects the blocks it had lost again (nothing was mined on top of the shorter chain meanwhile).
+    pub fn catch_up(&mut self) {
+        if self.lost.is_empty() {
+            return;
+        }
+        let lost = std::mem::take(&mut self.lost);
+        if lost.first().map(|b| self.blocks[b].0.header.prev_blockhash) == Some(self.tip()) {
+            self.active.extend(lost);
+            self.rebuild();
+            self.revalidate_mempool(vec![]);
+        }
     }
 
     /// Builds a block at the same height as the tip on a sibling branch without making it active... and then makes
